@@ -394,4 +394,8 @@ def run(P, R, tier):
     # the fully written form (six groups and a dotted quad) of an announced address is stored, not cut short
     c13.full_range(P, R, c13.scope(P), 'C09.TAB.4', parts=('copy',))
     R.floor('C09.TAB.4', 1)
+    # the id, address text and port of a message are read from the request record: no copy into that record (class,
+    # account, names) runs past its member into the address text next to it
+    from .. import bnd as _bnd
+    _bnd.check_scope(P, R, 'C09.BND.2', _bnd.reader_scope(P))
     return EXPLANATION, ASSUMPTIONS
